@@ -111,9 +111,9 @@ where
     }
 
     fn size_hint(&self) -> (usize, Option<usize>) {
+        let queue_len = self.in_progress_queue.len();
         match &self.stream {
             Some(s) => {
-                let queue_len = self.in_progress_queue.len();
                 let (lower, upper) = s.size_hint();
                 let lower = lower.saturating_add(queue_len);
                 let upper = match upper {
@@ -122,7 +122,8 @@ where
                 };
                 (lower, upper)
             }
-            _ => (0, Some(0)),
+            // upstream is exhausted: exactly the futures still in flight remain
+            _ => (queue_len, Some(queue_len)),
         }
     }
 }
@@ -179,9 +180,9 @@ where
     }
 
     fn size_hint(&self) -> (usize, Option<usize>) {
+        let queue_len = self.in_progress_queue.len();
         match &self.stream {
             Some(s) => {
-                let queue_len = self.in_progress_queue.len();
                 let (lower, upper) = s.size_hint();
                 let lower = lower.saturating_add(queue_len);
                 let upper = match upper {
@@ -190,7 +191,8 @@ where
                 };
                 (lower, upper)
             }
-            _ => (0, Some(0)),
+            // upstream is exhausted: exactly the futures still in flight remain
+            _ => (queue_len, Some(queue_len)),
         }
     }
 }
